@@ -3790,6 +3790,17 @@ func newStorageCapabilityControllerSetTargetFunction(
 			capabilityID,
 		)
 
+		// Write the controller with its new target back to storage.
+		// Only mutating the loaded controller value does not persist the change,
+		// unless the slab the controller is stored in happens to get written for another reason.
+		controller.TargetPath = newTargetPathValue
+		context.WriteStored(
+			address,
+			common.StorageDomainCapabilityController,
+			interpreter.Uint64StorageMapKey(capabilityID),
+			controller,
+		)
+
 		addressValue := interpreter.AddressValue(address)
 
 		handler.EmitEvent(context, StorageCapabilityControllerTargetChangedEventType, []interpreter.Value{
